@@ -453,7 +453,8 @@ fn e2e_crlf_case(prop: &str, idx: u64, tmproot: &std::path::Path) -> CaseRec {
     fmt.s[1] = if cram || compat { 1 } else { 2 };
     fmt.s[2] = if cram || compat { 3 } else { 1 };
     CaseRec {
-        op: format!("effective {} {} {} {} -", mk(cli).field(), mk(inline).field(), mk(defaults).field(), fmt.field()),
+        // the command-line layer is computed by the model from the flags given (`cliLayer`)
+        op: format!("effectiveflags 00{}{} {} {} {} - case=crlf.{idx}", (cli == 2) as u8, (cli == 1) as u8, mk(inline).field(), mk(defaults).field(), fmt.field()),
         impl_out: format!("-,{},{},-,-,-,-,-", observed, if cram || compat { "3" } else { "1" }),
         oracle_fail: keep(prop, fails),
         nontrivial: true,
@@ -527,7 +528,7 @@ fn e2e_stream_case(prop: &str, idx: u64, tmproot: &std::path::Path) -> CaseRec {
     fmt.s[1] = if compat { 1 } else { 2 };
     fmt.s[2] = if compat { 3 } else { 1 };
     CaseRec {
-        op: format!("effective {} {} {} {} -", mk(cli).field(), mk(inline).field(), mk(defaults).field(), fmt.field()),
+        op: format!("effectiveflags {}{}00 {} {} {} - case=stream.{idx}", (cli == 1) as u8, (cli == 3) as u8, mk(inline).field(), mk(defaults).field(), fmt.field()),
         impl_out: format!("-,{},{},-,-,-,-,-", if compat { "1" } else { "2" }, observed),
         oracle_fail: keep(prop, fails),
         nontrivial: true,
@@ -633,6 +634,23 @@ pub fn replay(_prop: &str, op: &str) -> bool {
         }
         a
     };
+    if parts.first() == Some(&"effectiveflags") {
+        // end-to-end cases are regenerated from their index
+        let tmproot = std::env::temp_dir().join(format!("scrut-verif-cfg-replay-{}", std::process::id()));
+        std::fs::create_dir_all(&tmproot).unwrap();
+        let tag = parts.last().and_then(|l| l.strip_prefix("case=")).unwrap_or("");
+        let c = match tag.split_once('.') {
+            Some(("crlf", i)) => e2e_crlf_case("C16", i.parse().unwrap_or(0), &tmproot),
+            Some(("stream", i)) => e2e_stream_case("C16", i.parse().unwrap_or(0), &tmproot),
+            _ => return false,
+        };
+        let _ = std::fs::remove_dir_all(&tmproot);
+        println!("impl: {}", c.impl_out);
+        for (cl, d) in &c.oracle_fail {
+            println!("oracle-failure {cl}: {d}");
+        }
+        return c.oracle_fail.is_empty();
+    }
     if parts.first() == Some(&"effective") && parts.len() == 6 {
         let se: Vec<(u8, u8)> = if parts[5] == "-" { vec![] } else { parts[5].split('/').map(|kv| { let mut x = kv.split('='); (x.next().unwrap().parse().unwrap(), x.next().unwrap().parse().unwrap()) }).collect() };
         let c = effective_case("C16", pa(parts[1]), pa(parts[2]), pa(parts[3]), pa(parts[4]), se, "replay");
